@@ -7,6 +7,7 @@ use corrlib::pipe::*;
 use corrlib::*;
 use serde_json::json;
 use std::time::Duration;
+mod runall;
 
 pub fn run(rep: &mut Report) {
     rep.rule = "input sets of 2-10 overlapping .info/.xml files given as plain files or a directory, \
@@ -167,6 +168,7 @@ pub fn run(rep: &mut Report) {
     rep.count_n("traces_validated", reqs.len() as u64);
     lock_negatives(rep, &reqs);
     capacity_cases(rep, &mut rng);
+    runall::run(rep);
 }
 
 /// Unit-style negative tests of the trace validator on REAL logs: the accepted request of a run is
@@ -307,6 +309,7 @@ fn capacity_cases(rep: &mut Report, rng: &mut Rng) {
 }
 
 pub fn replay(rep: &mut Report, case: &serde_json::Value) {
+    if runall::replay(rep, case) { return; }
     // re-run the recorded input set / thread count / order / perturbation seed
     let c = if case.get("case").is_some() { &case["case"] } else { case };
     let c = if c.get("case").is_some() { &c["case"] } else { c };
